@@ -5,7 +5,7 @@ from common import *
 from runner import Script, Cfg
 
 ID = "C17"
-THEOREMS = ['C17_ref_smb1_hdr_roundtrip', 'C17_ref_smb2_hdr_roundtrip', 'C17_classify_sound', 'C17_ref_neg1_req_roundtrip', 'C17_ref_setup1_req_roundtrip', 'C17_ref_neg2_req_roundtrip', 'C17_ref_setup2_req_roundtrip', 'C17_classify_complete_neg1', 'C17_classify_complete_setup1', 'C17_classify_complete_neg2', 'C17_classify_complete_setup2', 'C17_select2_meaning', 'C17_select2_none_meaning', 'C17_combinator_read_ule', 'C17_le_val_le16', 'C17_le_val_le32', 'C17_le_val_le64', 'C17_smb1_negotiate_parse', 'C17_smb1_setup_parse', 'C17_smb2_negotiate_parse', 'C17_smb2_setup_parse', 'C17_smb1_negotiate_reply', 'C17_smb1_setup_reply', 'C17_smb2_negotiate_reply', 'C17_smb2_setup_reply', 'C17_response_flag_silent', 'C17_other_command_silent', 'C17_smb2_response_flag_silent', 'C17_smb2_other_command_silent', 'C17_smb2_no_common_dialect_silent', 'C17_smb1_no_dialect_silent', 'C17_smb1_setup_all_blobs', 'C17_smb2_setup_all_blobs', 'C17_smb1_handler_verdict', 'C17_smb2_handler_verdict', 'C17_proto_monitor_udp_smb1', 'C17_proto_monitor_udp_smb2', 'C17_proto_monitor_tcp_smb1', 'C17_proto_monitor_tcp_smb2', 'C17_blob_ok_the_env', 'C17_examples_classified', 'C17_examples_identified', 'C17_examples_answered', 'C17_monitor_rejects', 'C17_empty_blob_answered'] + ["SrcTie.src_smb_blobs_are_dumped", "Env.the_env_ok"]
+THEOREMS = ['C17_ref_smb1_hdr_roundtrip', 'C17_ref_smb2_hdr_roundtrip', 'C17_classify_sound', 'C17_ref_neg1_req_roundtrip', 'C17_ref_setup1_req_roundtrip', 'C17_ref_neg2_req_roundtrip', 'C17_ref_setup2_req_roundtrip', 'C17_classify_complete_neg1', 'C17_classify_complete_setup1', 'C17_classify_complete_neg2', 'C17_classify_complete_setup2', 'C17_select2_meaning', 'C17_select2_none_meaning', 'C17_combinator_read_ule', 'C17_le_val_le16', 'C17_le_val_le32', 'C17_le_val_le64', 'C17_smb1_negotiate_parse', 'C17_smb1_setup_parse', 'C17_smb2_negotiate_parse', 'C17_smb2_setup_parse', 'C17_smb1_negotiate_reply', 'C17_smb1_setup_reply', 'C17_smb2_negotiate_reply', 'C17_smb2_setup_reply', 'C17_response_flag_silent', 'C17_other_command_silent', 'C17_smb2_response_flag_silent', 'C17_smb2_other_command_silent', 'C17_smb2_no_common_dialect_silent', 'C17_smb1_no_dialect_silent', 'C17_smb1_setup_all_blobs', 'C17_smb2_setup_all_blobs', 'C17_smb1_handler_verdict', 'C17_smb2_handler_verdict', 'C17_proto_monitor_udp_smb1', 'C17_proto_monitor_udp_smb2', 'C17_proto_monitor_tcp_smb1', 'C17_proto_monitor_tcp_smb2', 'C17_blob_ok_the_env', 'C17_examples_classified', 'C17_examples_identified', 'C17_examples_answered', 'C17_monitor_rejects', 'C17_empty_blob_answered'] + ["SrcTie.src_smb_blobs_are_dumped", "Current.C17_classified_head", "Current.C17_classified_identified", "Current.C17_frame_udp", "Current.C17_frame_tcp_first", "Current.C17_frame_tcp_first_agree", "Current.C17_frame_tcp_first_state", "Current.C17_frame_examples", "Env.the_env_ok"]
 MONITORS = ["C17udp", "C17tcp"]
 RULE = ("SMB1 / SMB2 Negotiate and Session-Setup requests built by an independent Python encoder inside NetBIOS session "
         "messages: random correlation ids (PID high/low, TID, UID, MID; MessageId, AsyncId, SessionId incl. all-ones), all "
